@@ -422,6 +422,57 @@ fn classic_models() -> Vec<(LinearModel, &'static str)> {
     m.add_constraint(vec![1.0, 0.0, 0.0, 0.0], Comparison::LessOrEqual, 1.0);
     m.set_objective(vec![-10.0, 57.0, 9.0, 24.0], OptimizationType::Min);
     v.push((m, "marshall-suurballe"));
+    // the same cycling examples reached only after a strictly improving pivot: an independent variable y
+    // with the most attractive cost enters first (stall detection must still work afterwards)
+    let base: Vec<(LinearModel, &'static str)> = v.clone();
+    for (m0, name) in &base {
+        let (obj, sense, off, rows, mut vars, mut dom) = m0.clone().into_parts();
+        let _ = (&mut vars, &mut dom, off, sense);
+        let mut m = LinearModel::new();
+        for n in ["x1", "x2", "x3", "x4", "y"] {
+            m.add_variable(n, nn());
+        }
+        for r in &rows {
+            let mut a = r.coefficients().clone();
+            a.push(0.0);
+            m.add_constraint(a, *r.constraint_type(), r.rhs());
+        }
+        m.add_constraint(vec![0.0, 0.0, 0.0, 0.0, 1.0], Comparison::LessOrEqual, 1.0);
+        m.add_constraint(vec![0.0, 0.0, 0.0, 0.0, 1.0], Comparison::LessOrEqual, 3.0);
+        let mut c = obj.clone();
+        c.push(-1000.0);
+        m.set_objective(c, OptimizationType::Min);
+        v.push((m, match *name {
+            "beale" => "beale+improving-first",
+            "kuhn" => "kuhn+improving-first",
+            _ => "marshall-suurballe+improving-first",
+        }));
+    }
+    // Chvatal's cycling example (max 10x1 - 57x2 - 9x3 - 24x4), plain and behind an improving pivot
+    for with_y in [false, true] {
+        let mut m = LinearModel::new();
+        let names: Vec<&str> = if with_y { vec!["x1", "x2", "x3", "x4", "y"] } else { vec!["x1", "x2", "x3", "x4"] };
+        for n in &names {
+            m.add_variable(n, nn());
+        }
+        let pad = |mut a: Vec<f64>| {
+            if with_y {
+                a.push(0.0);
+            }
+            a
+        };
+        m.add_constraint(pad(vec![0.5, -5.5, -2.5, 9.0]), Comparison::LessOrEqual, 0.0);
+        m.add_constraint(pad(vec![0.5, -1.5, -0.5, 1.0]), Comparison::LessOrEqual, 0.0);
+        m.add_constraint(pad(vec![1.0, 0.0, 0.0, 0.0]), Comparison::LessOrEqual, 1.0);
+        let mut c = vec![10.0, -57.0, -9.0, -24.0];
+        if with_y {
+            m.add_constraint(vec![0.0, 0.0, 0.0, 0.0, 1.0], Comparison::LessOrEqual, 1.0);
+            m.add_constraint(vec![0.0, 0.0, 0.0, 0.0, 1.0], Comparison::LessOrEqual, 3.0);
+            c.push(100.0);
+        }
+        m.set_objective(c, OptimizationType::Max);
+        v.push((m, if with_y { "chvatal+improving-first" } else { "chvatal" }));
+    }
     // assignment polytopes (highly degenerate), 3x3 and 4x4 with structured costs
     for k in [3usize, 4] {
         let mut m = LinearModel::new();
@@ -553,6 +604,18 @@ impl Driver for C14 {
                     break;
                 }
             }
+            if !bad && outcome.contains("Limit") {
+                // <= 16 columns: 10 000 pivots without a verdict is cycling (or endless stalling)
+                bad = true;
+                let sig = if range == "wide" { "tableau-simplex-unreliable-on-wide-coefficient-range(spread>=50)".to_string() } else { format!("did-not-finish-within-the-iteration-limit({})", if sbs { "solve_step_by_step" } else { "solve" }) };
+                out.violation(
+                    &sig,
+                    &format!("the solve ended with '{outcome}' after {total_pivots} pivots on a problem with {} columns", xs.vars.len()),
+                    json!({"model": spec_json, "origin": origin, "pivots": total_pivots}),
+                );
+            } else if !bad {
+                out.tag("finished-within-limit");
+            }
             if !bad && total_pivots >= 2 {
                 out.nontrivial(hash_str(&spec_json.to_string()));
             }
@@ -562,7 +625,7 @@ impl Driver for C14 {
         }
     }
     fn rule(&self) -> String {
-        "continuous G-lp models (<=6 variables, <=6 rows, 30% with mostly zero right-hand sides), Beale / Kuhn / Marshall-Suurballe cycling examples and 3x3, 4x4 assignment polytopes, converted by into_standard_form().into_tableau() and solved by Tableau::solve / solve_step_by_step with the step log (hook H3) recording every step_inner call of phase 1 (solve_avoiding) and phase 2, including the switch to Bland's rule; after EVERY pivot: basic columns unit, reduced costs of basic columns 0, b >= 0, basic solution and all n-m edge points satisfy the INITIAL equalities, the tableau encodes the same affine objective as the initial one, objective never worse, ratio test minimal, no basis repeats under Bland; at the end the certified exact optimum / unboundedness of the run's initial tableau must match. non-trivial = history with at least two pivots".into()
+        "continuous G-lp models (<=6 variables, <=6 rows, 30% with mostly zero right-hand sides), Beale / Kuhn / Marshall-Suurballe / Chvatal cycling examples - plain and behind a strictly improving first pivot (an independent variable with the most attractive cost), solved both ways - and 3x3, 4x4 assignment polytopes, converted by into_standard_form().into_tableau() and solved by Tableau::solve / solve_step_by_step with the step log (hook H3) recording every step_inner call of phase 1 (solve_avoiding) and phase 2, including the switch to Bland's rule; after EVERY pivot: basic columns unit, reduced costs of basic columns 0, b >= 0, basic solution and all n-m edge points satisfy the INITIAL equalities, the tableau encodes the same affine objective as the initial one, objective never worse, ratio test minimal, no basis repeats under Bland; at the end the certified exact optimum / unboundedness of the run's initial tableau must match, and a solve that ends with 'Iteration Limit Reached' (limit 10 000) is a violation. non-trivial = history with at least two pivots".into()
     }
     fn thresholds(&self, tier: Tier) -> Thresholds {
         let s = tier.pick(20, 300);
@@ -575,6 +638,8 @@ impl Driver for C14 {
                 ("terminal-optimal-confirmed", 1000 * s),
                 ("terminal-unbounded-confirmed", 100 * s),
                 ("origin:beale", 1),
+                ("origin:chvatal+improving-first", 1),
+                ("origin:beale+improving-first", 1),
                 ("origin:assignment", 1),
             ],
             min_nontrivial: 1500 * s,
